@@ -115,7 +115,7 @@ def normalizeUrlStringPA (puny : Str → Str) (o : Opts) (inferRedirection : Boo
 
 /-- `fingerprint_url(url, platform_aware=True, unsplit=False, strip_suffix)` on a string -/
 def fingerprintUrlStringSplitPA (puny : Str → Str) (trie : SNode Str) (stripSfx : Bool) (url : Str) :
-    Except Fingerprint.Err Split :=
+    Except Fingerprint.Err (Str ⊕ Split) :=
   fingerprintUrlStringSplit puny (platformConcrete puny) trie stripSfx url
 
 /-- `fingerprint_url(url, platform_aware=True, strip_suffix)` on a string -/
